@@ -95,6 +95,15 @@ int main(int argc,char **argv)
 					if(rc==0 && (!node[0]->fetch(kb,&got,0,0,0) || got!="c"+v.str())) rc=replay_fail("directed probe: node with L1 returned a replaced value for "+kb+": "+got);
 				}
 				node[2]->clear();
+				// directed probe 2: a value replaced by the EMPTY value must be seen as empty by a node whose L1 still holds the old one
+				node[2]->store(ka,"old-value",nt,time(0)+1000);
+				if(!node[0]->fetch(ka,&got,0,0,0) || got!="old-value") rc=replay_fail("directed probe: L1 node did not see the stored value");
+				node[2]->store(ka,"",nt,time(0)+1000);
+				got="caller-garbage";
+				if(rc==0 && (!node[0]->fetch(ka,&got,0,0,0) || got!="")) rc=replay_fail("directed probe: a value replaced by the empty value is still returned as \""+got+"\"");
+				got="caller-garbage";
+				if(rc==0 && (!node[2]->fetch(ka,&got,0,0,0) || got!="")) rc=replay_fail("directed probe: fetch of an empty value leaves the caller's previous content: \""+got+"\"");
+				node[2]->clear();
 			}
 			for(int step=0;step<1500 && rc==0;step++) {
 				int n=RND()%3; std::string key=keys[RND()%4];
